@@ -26,6 +26,7 @@ CASES = [
  ("C06", "metrics/ranking/_base.py", "            if len(items) > self.k:", "            if len(items) >= self.k:", "keep"),
  ("C06", "metrics/ranking/_base.py", "            if len(items) > self.k:", "            if len(items) > self.k + 1:", "break"),
  ("C06", "metrics/ranking/_pr.py", "        if self.k is not None and self.k < nrel:", "        if self.k is not None and self.k > nrel:", "break"),
+ ("C06", "metrics/ranking/_pr.py", "        nrel = len(test)\n        if self.k is not None and self.k < nrel:\n            nrel = self.k\n", "        nrel = len(test) if self.k is None else min(len(test), self.k)\n", "keep"),
  ("C06", "metrics/ranking/_dcg.py", "            if self.k and self.k < n:", "            if self.k is not None and self.k <= n:", "keep"),
  ("C07", "metrics/bulk.py", "                elif list_test is None:", "                elif not list_test:", "break"),
  ("C08", "basic/bias.py", "            elif user_id is not None:", "            elif user_id:", "break"),
